@@ -64,9 +64,10 @@ package scanner
 //@   assume_ensures [pieces-stay-ascending] forall(k, 0 <= k && k < len(ret), bytes_cmp(ret[k].Start, ret[k].End) <= 0)
 //@   ensures [chained] forall(k, 1 <= k && k < len(ret), ret[k].Start == ret[k-1].End)
 //@   ensures [inner-borders-at-index-records] forall(k, 0 <= k && k < len(ret)-1, is_internal_key(ret[k].End) ==> key_rev(ret[k].End) == 0)
-//@   loop 0 invariant [range] 0 <= i && i <= len(ps) && len(ps) == old(len(ps)) && ps.obj == old(ps.obj) && ps.off == old(ps.off)
-//@   loop 0 invariant [chained] forall(k, 1 <= k && k < i, ps[k].Start == ps[k-1].End)
-//@   loop 0 invariant [adjusted] forall(k, 0 <= k && k < i && k < len(ps)-1, is_internal_key(ps[k].End) ==> key_rev(ps[k].End) == 0)
+// (iter: the number of partitions handled so far -- the loop's counter whichever way it is written)
+//@   loop 0 invariant [range] 0 <= iter && iter <= len(ps) && len(ps) == old(len(ps)) && ps.obj == old(ps.obj) && ps.off == old(ps.off)
+//@   loop 0 invariant [chained] forall(k, 1 <= k && k < iter, ps[k].Start == ps[k-1].End)
+//@   loop 0 invariant [adjusted] forall(k, 0 <= k && k < iter && k < len(ps)-1, is_internal_key(ps[k].End) ==> key_rev(ps[k].End) == 0)
 //@   loop 0 invariant [decodable] forall(k, 0 <= k && k < len(ps), len(ps[k].End) >= 13)
 
 // ---- C13 / C03: result receivers ----
@@ -199,6 +200,8 @@ package scanner
 //@ func (*worker).updateSkippedRawKey(rawKey, rev, err)
 //@   props C07
 //@   requires w != nil
+// (it is told about failed deletes only: what it does with "no error" is nobody's business)
+//@   requires [a-failed-delete] err != nil
 //@   modifies inferred:(*worker).updateSkippedRawKey
 //@   ensures [a-failed-delete-that-is-not-a-lost-race-skips-the-key] ite(err_is(err, storage.ErrCASFailed), w.lastCompactFailedRawKey == old(w.lastCompactFailedRawKey), w.lastCompactFailedRawKey == rawKey)
 
